@@ -23,14 +23,18 @@ fn setup(ctx: &mut Ctx) {
     ctx.floor("class:adversarial-notes", 10);
     ctx.floor("short-buffer-lengths", 60);
     ctx.floor("u32-boundary-link-cases", 50);
+    ctx.floor("targeted:calls", 10_000);
 }
 
 fn strata(t: Tier) -> Vec<Stratum> {
     vec![
         st("walker-corpus", scale(t, 288_000, 2_880_000, 0)),
-        ex("short-buffer-sweep", scale(t, 4 * 71, 4 * 71, 4 * 71)),
-        st("u32-boundary-links", scale(t, 72_000, 720_000, 400)),
-        st("walker-corpus-small", scale(t, 24_000, 240_000, 60)),
+        ex("short-buffer-sweep", scale(t, 4 * 71, 4 * 71, 0)),
+        st("u32-boundary-links", scale(t, 72_000, 720_000, 0)),
+        st("walker-corpus-small", scale(t, 24_000, 240_000, 16)),
+        // direct calls with 32-bit boundary values in every link/size/count field: cheap enough for Miri,
+        // where usize is 32 bits wide (i686, mips)
+        st("targeted-32bit-boundaries", scale(t, 200_000, 2_000_000, 4800)),
     ]
 }
 
@@ -92,8 +96,222 @@ pub fn walk_all_specs(ctx: &mut Ctx, data: &[u8], what: &str, salt: u64, standal
     }
 }
 
+const B32: [u64; 10] = [0, 1, 0x7fff_ffff, 0x8000_0000, 0xffff_fff0, 0xffff_fffc, 0xffff_ffff, 16, 20, 0xffff_0000];
+
+/// Direct calls into the stand-alone parsers with 32-bit boundary values in every link, size and
+/// count field. On a 32-bit usize these additions overflow unless the crate checks them.
+fn targeted(ctx: &mut Ctx) {
+    use crate::codec::{Rec, St};
+    use elf::gnu_symver::{SymbolVersionTable, VerDefAuxIterator, VerDefIterator, VerNeedAuxIterator, VerNeedIterator, VersionIndexTable};
+    use elf::hash::{GnuHashTable, SysVHashTable};
+    use elf::note::NoteIterator;
+    use elf::parse::ParsingTable;
+    use elf::section::SectionHeader;
+    use elf::string_table::StringTable;
+    use elf::symbol::Symbol;
+    let enc = Enc::ALL[ctx.rng.usize_below(4)];
+    let class = if enc.c64 { Class::ELF64 } else { Class::ELF32 };
+    let e = if enc.big { AnyEndian::Big } else { AnyEndian::Little };
+    let b = |ctx: &mut Ctx| B32[ctx.rng.usize_below(B32.len())];
+    let which = ctx.rng.below(7);
+    let mut calls = 0u64;
+    let cap = 300usize;
+    let (r, what, input): (Result<(), PanicReport>, String, Vec<u8>) = match which {
+        0 | 1 => {
+            // version records
+            let total = 64 + ctx.rng.usize_below(80);
+            let mut buf = ctx.rng.bytes(total);
+            let (n1, a1, n2, a2) = (b(ctx), b(ctx), b(ctx), b(ctx));
+            let second = 20 + ctx.rng.usize_below(8);
+            let def = which == 0;
+            if def {
+                let r0 = Rec::zero(St::Verdef, enc.c64).with("vd_version", 1).with("vd_cnt", 3).with("vd_aux", a1).with("vd_next", if ctx.rng.bool() { second as u64 } else { n1 });
+                let r1 = Rec::zero(St::Verdef, enc.c64).with("vd_version", 1).with("vd_cnt", 0xffff).with("vd_aux", a2).with("vd_next", n2);
+                buf[..20].copy_from_slice(&r0.bytes(enc));
+                buf[second..second + 20].copy_from_slice(&r1.bytes(enc));
+            } else {
+                let r0 = Rec::zero(St::Verneed, enc.c64).with("vn_version", 1).with("vn_cnt", 3).with("vn_aux", a1).with("vn_next", if ctx.rng.bool() { second as u64 } else { n1 });
+                let r1 = Rec::zero(St::Verneed, enc.c64).with("vn_version", 1).with("vn_cnt", 0xffff).with("vn_aux", a2).with("vn_next", n2);
+                buf[..16].copy_from_slice(&r0.bytes(enc));
+                buf[second..second + 16].copy_from_slice(&r1.bytes(enc));
+            }
+            // aux records with boundary next fields right behind
+            let an = b(ctx);
+            if total >= second + 36 {
+                enc.put_at(&mut buf, second + 20 + if def { 4 } else { 12 }, an, 4);
+            }
+            let count = [1u64, 2, 3, 0xffff_ffff, u64::MAX][ctx.rng.usize_below(5)];
+            let start = [0usize, 0, second, usize::MAX - 3, usize::MAX][ctx.rng.usize_below(5)];
+            let what = format!("{} records: next {n1:#x}/{n2:#x}, aux {a1:#x}/{a2:#x}, aux-next {an:#x}, count {count:#x}, start {start:#x}", if def { "verdef" } else { "verneed" });
+            let data = buf.clone();
+            let r = guard(|| {
+                if def {
+                    for (_, aux) in VerDefIterator::new(e, class, count, start, &data).take(cap) {
+                        calls += 1;
+                        for _ in aux.take(cap) {
+                            calls += 1;
+                        }
+                    }
+                    for _ in VerDefAuxIterator::new(e, class, count as u16, start, &data).take(cap) {
+                        calls += 1;
+                    }
+                } else {
+                    for (_, aux) in VerNeedIterator::new(e, class, count, start, &data).take(cap) {
+                        calls += 1;
+                        for _ in aux.take(cap) {
+                            calls += 1;
+                        }
+                    }
+                    for _ in VerNeedAuxIterator::new(e, class, count as u16, start, &data).take(cap) {
+                        calls += 1;
+                    }
+                }
+                let strs = StringTable::new(&data);
+                let t = SymbolVersionTable::new(
+                    VersionIndexTable::new(e, class, &data[..8]),
+                    Some((VerNeedIterator::new(e, class, count, 0, &data), strs)),
+                    Some((VerDefIterator::new(e, class, count, 0, &data), strs)),
+                );
+                for i in [0usize, 1, 3, 4, usize::MAX] {
+                    calls += 2;
+                    let _ = t.get_requirement(i);
+                    if let Ok(Some(d)) = t.get_definition(i) {
+                        for _ in d.names.take(cap) {
+                            calls += 1;
+                        }
+                    }
+                }
+            });
+            (r, what, buf)
+        }
+        2 => {
+            let (ns, ds) = (b(ctx), b(ctx));
+            let mut buf = Vec::new();
+            enc.put(&mut buf, ns, 4);
+            enc.put(&mut buf, ds, 4);
+            enc.put(&mut buf, b(ctx), 4);
+            let extra = ctx.rng.usize_below(40);
+            buf.extend_from_slice(&ctx.rng.bytes(extra));
+            let align = [0usize, 1, 4, 8, 0x7fff_ffff, 0x8000_0000, 0xffff_ffff, usize::MAX, usize::MAX - 1][ctx.rng.usize_below(9)];
+            let what = format!("note namesz {ns:#x} descsz {ds:#x} align {align:#x}");
+            let data = buf.clone();
+            let r = guard(|| {
+                let mut it = NoteIterator::new(e, class, align, &data);
+                for _ in 0..6 {
+                    calls += 1;
+                    let _ = it.next();
+                }
+            });
+            (r, what, buf)
+        }
+        3 => {
+            let mut buf = Vec::new();
+            let gnu = ctx.rng.bool();
+            for _ in 0..if gnu { 4 } else { 2 } {
+                let v = if ctx.rng.chance(1, 3) { ctx.rng.below(6) } else { b(ctx) };
+                enc.put(&mut buf, v, 4);
+            }
+            let extra = ctx.rng.usize_below(64);
+            buf.extend_from_slice(&ctx.rng.bytes(extra));
+            let what = format!("{} hash header {}", if gnu { "gnu" } else { "sysv" }, hex_trunc(&buf, 16));
+            let data = buf.clone();
+            let r = guard(|| {
+                let syms = ParsingTable::<AnyEndian, Symbol>::new(e, class, &data);
+                let strs = StringTable::new(&data);
+                if gnu {
+                    calls += 1;
+                    if let Ok(t) = GnuHashTable::new(e, class, &data) {
+                        for n in [&b""[..], b"a", b"memset"] {
+                            calls += 1;
+                            let _ = t.find(n, &syms, &strs);
+                        }
+                    }
+                } else {
+                    calls += 1;
+                    if let Ok(t) = SysVHashTable::new(e, class, &data) {
+                        for n in [&b""[..], b"a", b"memset"] {
+                            calls += 1;
+                            let _ = t.find(n, &syms, &strs);
+                        }
+                    }
+                }
+            });
+            (r, what, buf)
+        }
+        4 => {
+            // table location with boundary offsets/counts in a header-only file
+            let mut f = vec![0x7f, b'E', b'L', b'F', if enc.c64 { 2 } else { 1 }, if enc.big { 2 } else { 1 }, 1, 0, 0, 0, 0, 0, 0, 0, 0, 0];
+            let mut t = Rec::zero(St::EhdrTail, enc.c64);
+            let w = if enc.c64 { 64 } else { 32 };
+            let big = |ctx: &mut Ctx| if ctx.rng.bool() { b(ctx) } else { ctx.rng.boundary(w) };
+            t.set("e_shoff", big(ctx)).set("e_phoff", big(ctx)).set("e_shnum", ctx.rng.boundary(16)).set("e_phnum", ctx.rng.boundary(16));
+            t.set("e_shentsize", if enc.c64 { 64 } else { 40 }).set("e_phentsize", if enc.c64 { 56 } else { 32 }).set("e_shstrndx", ctx.rng.boundary(16));
+            t.encode(enc, &mut f);
+            let extra = ctx.rng.usize_below(80);
+            f.extend_from_slice(&ctx.rng.bytes(extra));
+            let what = format!("header-only file, tail {:x?}", t.v);
+            let data = f.clone();
+            let r = guard(|| {
+                calls += 1;
+                if let Ok(file) = elf::ElfBytes::<AnyEndian>::minimal_parse(&data) {
+                    calls += 3;
+                    let _ = file.section_headers_with_strtab();
+                    let _ = file.find_common_data();
+                    let _ = file.symbol_version_table();
+                }
+            });
+            (r, what, f)
+        }
+        5 => {
+            // fabricated headers against a tiny healthy file
+            let mut f = vec![0x7f, b'E', b'L', b'F', if enc.c64 { 2 } else { 1 }, if enc.big { 2 } else { 1 }, 1, 0, 0, 0, 0, 0, 0, 0, 0, 0];
+            Rec::zero(St::EhdrTail, enc.c64).with("e_version", 1).encode(enc, &mut f);
+            f.extend_from_slice(&ctx.rng.bytes(32));
+            let (o, z) = (if ctx.rng.bool() { b(ctx) } else { ctx.rng.boundary(64) }, if ctx.rng.bool() { b(ctx) } else { ctx.rng.boundary(64) });
+            let sh = SectionHeader { sh_name: 0, sh_type: [1u32, 3, 4, 7, 9][ctx.rng.usize_below(5)], sh_flags: if ctx.rng.bool() { 0x800 } else { 0 }, sh_addr: 0, sh_offset: o, sh_size: z, sh_link: 0, sh_info: 0, sh_addralign: b(ctx), sh_entsize: b(ctx) };
+            let what = format!("fabricated {:?}", sh);
+            let data = f.clone();
+            let r = guard(|| {
+                if let Ok(file) = elf::ElfBytes::<AnyEndian>::minimal_parse(&data) {
+                    calls += 5;
+                    let _ = file.section_data(&sh);
+                    let _ = file.section_data_as_strtab(&sh);
+                    let _ = file.section_data_as_rels(&sh).map(|it| it.take(4).count());
+                    let _ = file.section_data_as_relas(&sh).map(|it| it.take(4).count());
+                    let _ = file.section_data_as_notes(&sh).map(|it| it.take(4).count());
+                }
+            });
+            (r, what, f)
+        }
+        _ => {
+            let l = ctx.rng.usize_below(64);
+            let buf = ctx.rng.bytes(l);
+            let idx = [usize::MAX, usize::MAX - 1, usize::MAX / 2, usize::MAX / 16, usize::MAX / 24 + 1, 0x1000_0000, 0x0aaa_aaab, 0x8000_0000][ctx.rng.usize_below(8)];
+            let what = format!("table/strtab index {idx:#x} on {l} bytes");
+            let data = buf.clone();
+            let r = guard(|| {
+                calls += 6;
+                let _ = ParsingTable::<AnyEndian, Symbol>::new(e, class, &data).get(idx);
+                let _ = ParsingTable::<AnyEndian, SectionHeader>::new(e, class, &data).get(idx);
+                let _ = ParsingTable::<AnyEndian, u32>::new(e, class, &data).get(idx);
+                let _ = ParsingTable::<AnyEndian, elf::dynamic::Dyn>::new(e, class, &data).get(idx);
+                let _ = StringTable::new(&data).get_raw(idx);
+                let _ = StringTable::new(&data).get(idx);
+            });
+            (r, what, buf)
+        }
+    };
+    ctx.set_input(&input);
+    ctx.evals(calls.max(1));
+    ctx.count_n("targeted:calls", calls.max(1));
+    ctx.nontrivial_bytes(&input);
+    ctx.sample(|| format!("{} {}", enc.name(), what));
+    handle(ctx, r, &format!("targeted 32-bit boundary case: {what}"), "direct call");
+}
+
 fn run(ctx: &mut Ctx, si: usize, case: u64) {
     match si {
+        4 => targeted(ctx),
         0 | 3 => {
             let small = si == 3;
             let kind = ctx.rng.below(KINDS);
@@ -134,7 +352,8 @@ fn run(ctx: &mut Ctx, si: usize, case: u64) {
             let bytes = match ctx.rng.below(5) {
                 0 => {
                     let total = if small { 64 } else { 64 + ctx.rng.usize_below(200) };
-                    let c = adversarial::ver_overlap(&mut ctx.rng, enc, total, 4);
+                    let var45 = 4 + ctx.rng.below(2);
+                    let c = adversarial::ver_overlap(&mut ctx.rng, enc, total, var45);
                     what = format!("version sections: {}", c.what);
                     let spec = adversarial::wrap_in_object(enc, None, Some(&c), None);
                     crate::gen::elf::build(&spec, &mut ctx.rng).bytes
